@@ -371,3 +371,16 @@ def apply_lemma(name, **kw):
 
 def obj_id(o):
     return id(o)
+
+
+# ---------------------------------------------------------------------------
+# derived sequences (C04; symbolic meaning in pyvc/derivedseq.py)
+
+def same_elem(a, i, b, j):
+    """a[i] is b[j]: the two sequences share this element (both indices in range)"""
+    return a[i] is b[j]
+
+
+def elem_is(x, s, j):
+    """x is s[j]"""
+    return x is s[j]
